@@ -282,6 +282,52 @@ theorem It.next_le {it it1 : It} {c : Char} (h : it.next = some (c, it1)) : It.L
   obtain ⟨hr, hi⟩ := It.next_some h
   exact ⟨[c], by simp [hr], by simp [hi]⟩
 
+/-- `matchPosix` (the model of `RE_POSIX`) reads exactly `:name:]`, and a class name holds neither
+    a `/` nor a `|` -/
+theorem matchPosix_shape {s : List Char} {n : PosixName} {len : Nat} {rest' : List Char}
+    (h : matchPosix s = some (n, len, rest')) :
+    ∃ mid, s = mid ++ rest' ∧ mid.length = len ∧ '/' ∉ mid ∧ '|' ∉ mid := by
+  unfold matchPosix at h
+  split at h
+  · rename_i rest
+    obtain ⟨m, _, hm⟩ := List.exists_of_findSome?_eq_some h
+    dsimp only at hm
+    split at hm
+    · rename_i hpre
+      split at hm
+      · rename_i r' hd
+        simp only [Option.some.injEq, Prod.mk.injEq] at hm
+        obtain ⟨t, ht⟩ := List.isPrefixOf_iff_prefix.mp hpre
+        rw [← ht, List.drop_left] at hd
+        have hnm : '/' ∉ m.name.toList ∧ '|' ∉ m.name.toList := by cases m <;> decide
+        refine ⟨':' :: (m.name.toList ++ [':', ']']), ?_, ?_, ?_, ?_⟩
+        · rw [← ht, hd, ← hm.2.2]; simp
+        · rw [← hm.2.1]; simp
+        · simp [hnm.1]
+        · simp [hnm.2]
+      · cases hm
+    · cases hm
+  · cases h
+
+/-- `i.match(RE_POSIX)` moves forward over text without a separator (or not at all) -/
+theorem skipPosix_mid (it : It) : ∃ mid, it.rest = mid ++ (GSplit.skipPosix it).rest ∧
+    (GSplit.skipPosix it).idx = it.idx + mid.length ∧ '/' ∉ mid := by
+  unfold GSplit.skipPosix
+  split
+  · rename_i n len rest' h
+    obtain ⟨mid, h1, h2, h3, _⟩ := matchPosix_shape h
+    exact ⟨mid, h1, by simp [h2], h3⟩
+  · exact ⟨[], by simp, by simp, by simp⟩
+
+theorem skipPosix_le (it : It) : It.Le it (GSplit.skipPosix it) := by
+  obtain ⟨mid, h1, h2, _⟩ := skipPosix_mid it
+  exact ⟨mid, h1, h2⟩
+
+theorem skipIf_le (c : Char) (it : It) : It.Le it (if c = '[' then GSplit.skipPosix it else it) := by
+  split
+  · exact skipPosix_le it
+  · exact It.Le.refl _
+
 theorem seqLoop_le : ∀ (fuel : Nat) (c : Char) (it it' : It), GSplit.seqLoop fuel c it = some it' → It.Le it it' := by
   intro fuel
   induction fuel with
@@ -306,7 +352,7 @@ theorem seqLoop_le : ∀ (fuel : Nat) (c : Char) (it it' : It), GSplit.seqLoop f
         · split at h
           · cases h
           · rename_i c' it2 hn
-            exact (It.next_le hn).trans (ih _ _ _ h)
+            exact (skipIf_le c it).trans ((It.next_le hn).trans (ih _ _ _ h))
 
 theorem sequence_le {it it' : It} (h : GSplit.sequence it = some it') : It.Le it it' := by
   unfold GSplit.sequence at h
@@ -317,18 +363,27 @@ theorem sequence_le {it it' : It} (h : GSplit.sequence it = some it') : It.Le it
     simp only [h1, Option.bind_eq_bind, Option.bind_some] at h
     have l1 := It.next_le h1
     have stepB : ∀ (c : Char) (i r : It),
-        (if c = '^' ∨ c = '-' ∨ c = '[' then
+        (if c = '[' then
+            (GSplit.skipPosix i).next.bind fun x => GSplit.seqLoop (x.snd.rest.length + 2) x.fst x.snd
+          else if c = '-' ∨ c = ']' then
             i.next.bind fun x => GSplit.seqLoop (x.snd.rest.length + 2) x.fst x.snd
           else GSplit.seqLoop (i.rest.length + 2) c i) = some r → It.Le i r := by
       intro c i r hr
       split at hr
-      · cases hn : i.next with
+      · cases hn : (GSplit.skipPosix i).next with
         | none => simp [hn] at hr
         | some p =>
           obtain ⟨c', i'⟩ := p
           simp only [hn, Option.bind_some] at hr
-          exact (It.next_le hn).trans (seqLoop_le _ _ _ _ hr)
-      · exact seqLoop_le _ _ _ _ hr
+          exact (skipPosix_le i).trans ((It.next_le hn).trans (seqLoop_le _ _ _ _ hr))
+      · split at hr
+        · cases hn : i.next with
+          | none => simp [hn] at hr
+          | some p =>
+            obtain ⟨c', i'⟩ := p
+            simp only [hn, Option.bind_some] at hr
+            exact (It.next_le hn).trans (seqLoop_le _ _ _ _ hr)
+        · exact seqLoop_le _ _ _ _ hr
     split at h
     · cases hn : i1.next with
       | none => simp [hn] at h
@@ -669,6 +724,13 @@ theorem It.Mid.self_nil {a : It} {mid : List Char} (h : It.Mid a a mid) : mid = 
   rw [List.length_append] at this
   exact List.length_eq_zero_iff.1 (by omega)
 
+theorem skipIf_mid (c : Char) (it : It) :
+    ∃ mid, It.Mid it (if c = '[' then GSplit.skipPosix it else it) mid ∧ '/' ∉ mid := by
+  split
+  · obtain ⟨mid, h1, h2, h3⟩ := skipPosix_mid it
+    exact ⟨mid, ⟨h1, h2⟩, h3⟩
+  · exact ⟨[], It.Mid.refl _, by simp⟩
+
 theorem seqLoop_noslash : ∀ (fuel : Nat) (c : Char) (it it' : It), GSplit.seqLoop fuel c it = some it' →
     c ≠ '/' ∧ ∃ mid, It.Mid it it' mid ∧ '/' ∉ mid := by
   intro fuel
@@ -703,9 +765,10 @@ theorem seqLoop_noslash : ∀ (fuel : Nat) (c : Char) (it it' : It), GSplit.seqL
           · cases h
           · rename_i c' it2 hn
             obtain ⟨hc', mid, hm, hns⟩ := ih _ _ _ h
-            refine ⟨hcs, _, (It.next_mid hn).trans hm, ?_⟩
-            simp only [List.cons_append, List.nil_append, List.mem_cons, not_or]
-            exact ⟨fun hh => hc' hh.symm, hns⟩
+            obtain ⟨m0, hm0, hns0⟩ := skipIf_mid c it
+            refine ⟨hcs, _, hm0.trans ((It.next_mid hn).trans hm), ?_⟩
+            simp only [List.cons_append, List.nil_append, List.mem_append, List.mem_cons, not_or]
+            exact ⟨hns0, fun hh => hc' hh.symm, hns⟩
 
 /-- a bracket expression the scanner steps over contains no separator -/
 theorem sequence_noslash {it it' : It} (h : GSplit.sequence it = some it') :
@@ -718,23 +781,38 @@ theorem sequence_noslash {it it' : It} (h : GSplit.sequence it = some it') :
     simp only [h1, Option.bind_eq_bind, Option.bind_some] at h
     have l1 := It.next_mid h1
     have stepB : ∀ (c : Char) (i r : It),
-        (if c = '^' ∨ c = '-' ∨ c = '[' then
+        (if c = '[' then
+            (GSplit.skipPosix i).next.bind fun x => GSplit.seqLoop (x.snd.rest.length + 2) x.fst x.snd
+          else if c = '-' ∨ c = ']' then
             i.next.bind fun x => GSplit.seqLoop (x.snd.rest.length + 2) x.fst x.snd
           else GSplit.seqLoop (i.rest.length + 2) c i) = some r → c ≠ '/' ∧ ∃ mid, It.Mid i r mid ∧ '/' ∉ mid := by
       intro c i r hr
       split at hr
       · rename_i hc
-        have hcs : c ≠ '/' := by rcases hc with rfl | rfl | rfl <;> decide
-        cases hn : i.next with
+        have hcs : c ≠ '/' := by rw [hc]; decide
+        cases hn : (GSplit.skipPosix i).next with
         | none => simp [hn] at hr
         | some p =>
           obtain ⟨c', i'⟩ := p
           simp only [hn, Option.bind_some] at hr
           obtain ⟨hc', mid, hm, hns⟩ := seqLoop_noslash _ _ _ _ hr
-          refine ⟨hcs, _, (It.next_mid hn).trans hm, ?_⟩
-          simp only [List.cons_append, List.nil_append, List.mem_cons, not_or]
-          exact ⟨fun hh => hc' hh.symm, hns⟩
-      · exact seqLoop_noslash _ _ _ _ hr
+          obtain ⟨m0, h01, h02, hns0⟩ := skipPosix_mid i
+          refine ⟨hcs, _, (It.Mid.trans ⟨h01, h02⟩ ((It.next_mid hn).trans hm)), ?_⟩
+          simp only [List.cons_append, List.nil_append, List.mem_append, List.mem_cons, not_or]
+          exact ⟨hns0, fun hh => hc' hh.symm, hns⟩
+      · split at hr
+        · rename_i hc
+          have hcs : c ≠ '/' := by rcases hc with rfl | rfl <;> decide
+          cases hn : i.next with
+          | none => simp [hn] at hr
+          | some p =>
+            obtain ⟨c', i'⟩ := p
+            simp only [hn, Option.bind_some] at hr
+            obtain ⟨hc', mid, hm, hns⟩ := seqLoop_noslash _ _ _ _ hr
+            refine ⟨hcs, _, (It.next_mid hn).trans hm, ?_⟩
+            simp only [List.cons_append, List.nil_append, List.mem_cons, not_or]
+            exact ⟨fun hh => hc' hh.symm, hns⟩
+        · exact seqLoop_noslash _ _ _ _ hr
     split at h
     · rename_i hc1
       cases hn : i1.next with
@@ -745,7 +823,7 @@ theorem sequence_noslash {it it' : It} (h : GSplit.sequence it = some it') :
         obtain ⟨hc', mid, hm, hns⟩ := stepB _ _ _ h
         refine ⟨_, l1.trans ((It.next_mid hn).trans hm), ?_⟩
         simp only [List.cons_append, List.nil_append, List.mem_cons, not_or]
-        exact ⟨by rw [hc1]; decide, fun hh => hc' hh.symm, hns⟩
+        exact ⟨by rcases hc1 with rfl | rfl <;> decide, fun hh => hc' hh.symm, hns⟩
     · obtain ⟨hc', mid, hm, hns⟩ := stepB _ _ _ h
       refine ⟨_, l1.trans hm, ?_⟩
       simp only [List.cons_append, List.nil_append, List.mem_cons, not_or]
